@@ -18,7 +18,7 @@ KNOWN = os.path.join(ROOT, "KNOWN_FINDINGS.txt")
 # per-check configuration: shards and wall budgets (seconds) per tier; race = also build with -race
 DEFAULT = {"shards": (16, 16), "budget": (600, 7200), "race": False}
 CHECKS = {
-    "C09": {"shards": (4, 8), "budget": (900, 7200), "race": True},
+    "C09": {"shards": (4, 8), "budget": (900, 7200), "race": True, "deadlock_is_violation": True},
 }
 
 
@@ -125,6 +125,7 @@ def main():
             infra.append("shard %d exceeded the %d s budget (inconclusive)" % (i, budget))
         log.close()
     parts = []
+    deadlocks = []
     for i in range(nsh):
         pf = os.path.join(out, "part.%d.json" % i)
         if not os.path.exists(pf):
@@ -133,6 +134,13 @@ def main():
                 tail = open(os.path.join(out, "log.%d.txt" % i)).read()[-3000:]
             except OSError:
                 pass
+            if cfg.get("deadlock_is_violation") and "all goroutines are asleep - deadlock" in tail and "lunar-go/calendar" in tail:
+                rdir = os.path.join(ROOT, "replays", cid)
+                os.makedirs(rdir, exist_ok=True)
+                rp = os.path.join(rdir, "deadlock-shard%d.log" % i)
+                open(rp, "w").write(tail)
+                deadlocks.append(rp)
+                continue
             infra.append("shard %d wrote no part file (worker death); log tail:\n%s" % (i, tail))
             continue
         parts.append(json.load(open(pf)))
@@ -235,7 +243,7 @@ def main():
         "inconclusive": infra,
     }
     ev = {"property_id": cid, "tier": tier, "seed": seed, "level": "exploration", "coverage": coverage,
-          "assumptions": assumes, "wall_s": round(wall, 2), "violations": len(viol_lines)}
+          "assumptions": assumes, "wall_s": round(wall, 2), "violations": len(viol_lines) + len(deadlocks)}
     os.makedirs(os.path.join(ROOT, "evidence"), exist_ok=True)
     json.dump(ev, open(os.path.join(ROOT, "evidence", cid + ".json"), "w"), ensure_ascii=False, indent=1)
     # ---- report
@@ -246,6 +254,11 @@ def main():
                                                ("exhaustive[" + m["exhaustive_domain"] + "]") if m["exhaustive_domain"] else ""))
     for sig, desc in open_findings(cid):
         print("KNOWN-FINDING: property=%s %s (sig=%s, matched %d failing cases in this run)" % (cid, desc, sig, known_seen.get(sig, 0)))
+    for rp in deadlocks:
+        print("VIOLATION property=%s replay=%s" % (cid, rp))
+        print("   the check process deadlocked inside the library (Go runtime: all goroutines are asleep); stack in the replay file")
+    if deadlocks and not viol_lines:
+        return 1
     if viol_lines:
         for rp, v in viol_lines[:6]:
             print("VIOLATION property=%s replay=%s" % (cid, rp))
